@@ -175,7 +175,9 @@ def _strip_wrapped(t, head, repl_head):
         if end is None:
             return out
         inner = out[j + len(head):end]
-        if _FIELD_END.match(inner) and inner.count("(") == inner.count(")"):
+        if (_FIELD_END.match(inner) or (not repl_head and inner.endswith(")"))) and inner.count("(") == inner.count(")"):
+            # (the payload of a call result is written as the call: a pattern in a `match` arm, an `if let`, a
+            # `let`-`else` and `?` all read the same value)
             if repl_head:
                 out = out[:j] + repl_head + inner + ")" + out[end + 1:]
                 i = j + len(repl_head)
@@ -349,11 +351,25 @@ class AcceptExtract(guards.Extract):
             name = "%s::%s" % (ty.rsplit("::", 1)[-1], name)
         return name
 
+    @staticmethod
+    def split_half(x, which):
+        """s.split_at(k).0 is s[..k], .1 is s[k..]: the slice node for one half of a split_at call, else None"""
+        if isinstance(x, dict) and x.get("k") == "mcall" and x.get("m") == "split_at" and len(x.get("args") or []) == 1 \
+                and "str" in (x.get("rt") or "str"):
+            nm, path = ("end", "std::ops::RangeTo") if which == 0 else ("start", "std::ops::RangeFrom")
+            return {"k": "index", "ln": x.get("ln"), "e": x["recv"], "bt": x.get("rt"),
+                    "i": {"k": "struct", "path": path, "t": path + "<usize>", "fields": [{"name": nm, "e": x["args"][0]}]}}
+        return None
+
     def value_text(self, n, env):
+        x = peel(n)
+        if isinstance(x, dict) and x.get("k") == "field" and x.get("name") in ("0", "1"):
+            h = self.split_half(peel(x.get("e")), int(x["name"]))
+            if h is not None:
+                return self.value_text(h, env)
         pl = self.place(n, env)
         if pl:
             return pl
-        x = peel(n)
         if not isinstance(x, dict):
             return "?"
         k = x.get("k")
@@ -648,7 +664,8 @@ class AcceptExtract(guards.Extract):
             t = self.value_text(init, env)
             for j, q in enumerate(pat.get("pats") or []):
                 if q.get("k") == "bind":
-                    env[q["id"]] = ("text", "%s.%d" % (t, j))
+                    h = self.split_half(peel(init), j) if j < 2 else None
+                    env[q["id"]] = ("text", self.value_text(h, env) if h is not None else "%s.%d" % (t, j))
         else:
             t = self.value_text(init, env)
             for q in guards_walk_binds(pat):
@@ -947,6 +964,9 @@ class AcceptExtract(guards.Extract):
                     else:
                         args.append(self.value_text(a, env))
                 if not re.match(r"^&(mut )?(std::string::)?String$", (x0.get("rt") or "").strip()):
+                    # from here on the collection is no longer what it was initialised with
+                    if rv is root:
+                        env[root["id"]] = ("text", "~" + root.get("name"))
                     self.stores.append((f_and(self.ctx, pc), "%s.%s(%s)" % (self.value_text(rv, env) if rv is not root else root.get("name"),
                                                                             x0["m"], ",".join(args))))
         # expression statement: `validate(x)?;` must succeed
@@ -993,6 +1013,11 @@ class AcceptExtract(guards.Extract):
             if x.get("k") in ("assign", "assignop"):
                 l = peel(x["l"])
                 if isinstance(l, dict) and l.get("k") == "local":
+                    e2[l["id"]] = ("text", "~" + l["name"])
+                    env[l["id"]] = ("text", "~" + l["name"])
+            if x.get("k") == "mcall" and x.get("m") in COLLECTION_OPS and (x.get("rt") or "").startswith("&mut"):
+                l = peel(x.get("recv"))
+                if isinstance(l, dict) and l.get("k") == "local" and l.get("name") != "self":
                     e2[l["id"]] = ("text", "~" + l["name"])
                     env[l["id"]] = ("text", "~" + l["name"])
         cond_f = TRUE
@@ -1163,7 +1188,9 @@ def targets(F):
             (p.startswith("swift_message::") or p.startswith("messages::"))
         is_tok = p.startswith(("parser::swift_parser::apply_field50", "parser::sequence_parser::",
                                "parser::swift_parser::parse_sequence", "parser::swift_parser::reconstruct_block4"))
-        if is_field_parse or is_util or is_hdr or is_parser or is_pred or is_tok:
+        is_msg_helper = res and p.startswith("messages::") and not b.get("impl_trait") and \
+            b["name"].startswith("parse_") and b["name"] != "parse_from_block4"
+        if is_field_parse or is_util or is_hdr or is_parser or is_pred or is_tok or is_msg_helper:
             out.append(b)
     return out
 
@@ -1181,7 +1208,7 @@ def extract_all(F):
 
 
 FILTERS = {
-    "parser": re.compile(r"^parser::(message_parser|field_extractor|utils)::"),
+    "parser": re.compile(r"^parser::(message_parser|field_extractor|utils)::|^messages::\w+::\w+::parse_(?!from_block4)"),
     "blocks": re.compile(r"^parser::swift_parser::SwiftParser::|^parser::utils::extract_block4"),
     "tokeniser": re.compile(r"^parser::generated::|FieldConsumptionTracker|^parser::sequence_parser::|^parser::swift_parser::(find_field|apply_field50|parse_sequence|reconstruct_block4)"),
     "predicates": re.compile(r"::(has_reject_codes|has_return_codes|is_cover_message|is_stp_message|is_stp_compliant)$"),
@@ -1450,6 +1477,23 @@ def u7(rep, F, flt=None):
                 continue
             va = (a[0].split(" => ", 1)[-1] if a else "-")
             vo = (o[0].split(" => ", 1)[-1] if o else "-")
+            if a and o and va != vo:
+                # two differently written values: a difference is reported only when the entries can be paired and
+                # each pair differs in a small, fully resolved part (an edit); a re-arranged expression is undecided
+                import difflib
+                aa, oo = list(a), list(o)
+                definite = len(aa) == len(oo) and len(aa) <= 3
+                while definite and aa:
+                    x = aa.pop()
+                    y = max(oo, key=lambda z: difflib.SequenceMatcher(a=x, b=z, autojunk=False).quick_ratio())
+                    oo.remove(y)
+                    if not decide.texts_definitely_differ(x, y, vocab):
+                        definite = False
+                if not definite:
+                    r["undecided"] = r.get("undecided", 0) + 1
+                    rep.notes.append("U7: %s: the delivered value is written differently from the reference and the "
+                                     "difference is not a small resolved edit: undecided, not reported" % path)
+                    continue
             if va == vo and a and o:
                 msg = ("%s now delivers `%s` under a different condition than the reference: current when `%s`, "
                        "reference when `%s`" % (path, va[:160], a[0].split(" => ", 1)[0][:400],
